@@ -37,6 +37,18 @@ CLAIMS = {
             "Machine-checked proofs over a complete case analysis of the token-manager endpoints (call_cases): gating of custody and mint/burn, exact effects per manager kind, and that any change of an account's roles is one of the nine guarded role operations or the issuance step; the real crates are run against the compiled model (balances, roles and proposals compared after every operation).",
             "ESDT local mint/burn roles are protocol state set by the harness (`roles` op) as the system contract would; the debug VM's role check is the one exercised. Trusted: Lean kernel, model, harness, debug VM.",
             "DESIGN.md §3 C10"),
+    "C11": ("Lean 4 theorems: dispatch requires a non-zero matured eta and clears it; schedule refuses a set slot and stores max(eta, now+minDelay); callback effects; proposal-hash binding (collision-or-equal); the full-strength 'not cancelled since' is REFUTED by a general theorem (finding F3) and the part that holds is proved as _partial; differential run with the three dispatch steps scheduled separately + ghost-history judge on the real governance and gateway",
+            "Machine-checked proofs about every step of the time-lock life cycle for all states, times and arguments, including a proof that a cancel landing between dispatch and failure callback is lost on the unchanged code (known finding F3, replayed on the real contracts from corpus/C11 on every run); the real contracts are run against the model with other transactions placed between dispatch, target call and callback.",
+            "The dispatched target is external code: its outcome is chosen by the schedule; gas exhaustion inside the callback is outside the model. Trusted: Lean kernel, model, harness (delivers promises step by step through the VM's own promise/callback input builders), debug VM.",
+            "DESIGN.md §3 C11, §4 F3"),
+    "C12": ("Lean 4 theorems: execute succeeds only with configured source and a gateway approval addressed to governance for H(payload), which becomes executed so a replay fails; forged/unapproved rejected; eta/approval maps framed for all other endpoints; operator dispatch needs operator+approval and consumes it; approval life cycle; operator change and fund outflow gated; differential run + judge on real governance+gateway",
+            "Machine-checked proofs of authentication and non-replay of governance commands (using the gateway lifecycle theorems), of the frame of all other endpoints, and of the operator-proposal rules; the cancel-in-window loss for operator approvals is a recorded known finding (F3) replayed from corpus/C12 on every run.",
+            "As C11. Cryptography is a parameter (hash collisions appear only in binding statements).",
+            "DESIGN.md §3 C12, §4 F3"),
+    "C16": ("Lean 4 theorems: failure callback credits exactly the attached payments per (caller, token, nonce), additively, to the dispatching caller only; success credits nothing; withdrawRefundToken pays the whole credit to the caller once and zeroes it; no other endpoint touches credits; differential run (credits and balances compared after every step) on the real governance contract",
+            "Machine-checked proofs of the exact credit arithmetic (including repeated tokens in one multi-transfer and repeated failures) and of the frame; the real contract is driven through dispatch / delivery / callback / withdrawal interleavings and compared with the model on getRefundToken and balances.",
+            "Gas exhaustion of the callback and the gas reservation constants cannot be exhibited by the model. Trusted: Lean kernel, model, harness, debug VM.",
+            "DESIGN.md §3 C16"),
     "C06": ("Lean 4 theorem: model of raw_abi_encode = independent Solidity abi.encode spec, for all token lists; tied to source by regenerated field tables + differential run on the real abi_encode",
             "Machine-checked proof (Lean 4 kernel) that the model of the Rust encoder equals a Solidity-ABI spec for every value (all lengths, all integers < 2^256), and rejects every integer >= 2^256; the model is tied to /repo by regenerated field lists (proof obligations) and by running the real `abi_encode` of all five payload structs against the model and against the spec on generated values.",
             "Assumes: total encoding < 2^32 bytes (u32 arithmetic in abi.rs; unreachable for buffers the VM can hold); bytes32 fields are 32 bytes (Rust type). Trusted: Lean kernel, hand-written model/spec, extractor, harness, Rust debug VM managed-type API.",
